@@ -335,3 +335,18 @@ package netflow9
 //@     acquires m R
 //@   loop 2
 //@     releases m
+
+// >>> field snapshots (govc -gen-names)
+//@ fields Data Template Timestamp
+//@ fields DecodedField ID Value
+//@ fields Decoder raddr reader
+//@ fields Message AgentID Header DataSets
+//@ fields PacketHeader Version Count SysUpTime UNIXSecs SeqNum SrcID
+//@ fields SetHeader FlowSetID Length
+//@ fields TemplateFieldSpecifier ElementID Length
+//@ fields TemplateHeader TemplateID FieldCount OptionLen OptionScopeLen
+//@ fields TemplateRecord TemplateID FieldCount FieldSpecifiers ScopeFieldCount ScopeFieldSpecifiers
+//@ fields TemplatesShard Templates RWMutex
+//@ fields memCacheDisk Cache ShardNo
+//@ fields nonfatalError error
+// <<< field snapshots
